@@ -143,3 +143,51 @@ def twin_oracle(rng, tier_budget, wdir, viol, props=((1, 0, 0), (2, 0, 0), (2, 1
                                  "world_json": w, "solo_world_json": solo, "cmd": q3("w", qs[i][1], qs[i][2], list(props)), "probe": None})
                     break
     return cases, nontriv
+
+
+TIAN = {"model": "tian water content", "compositions": [0], "lithology": "peridotite", "initial water content": 5, "cutoff pressure": 26}
+
+
+def pair_oracle(rng, tier_budget, wdir, viol, props=((1, 0, 0), (2, 0, 0), (2, 1, 0), (4, 0, 0))):
+    """Two WORLDS alive in one process that hold the same feature at the same place with different model parameters, queried alternately at bit-identical points:
+    each world's answers must equal the answers of that world alone in a fresh process.  (Anything kept outside the world - a function-local static, a memo keyed
+    on the position only - makes one world answer with the other's values.)  Oceanic plates and slabs also carry a `tian water content` composition, whose value
+    depends on the world's own temperature at the point through a nested properties() call.  -> (cases, nontrivial)"""
+    cases = nontriv = 0
+    cat = [c for c in catalogue() if c[1] == "temperature models"]
+    rng.shuffle(cat)
+    for ci, (kind, key, name, pa, pb) in enumerate(cat[:tier_budget]):
+        ws = {}
+        for which, par in (("a", pa), ("b", pb)):
+            w = twin_world(kind, key, name, par, par)
+            w["features"] = w["features"][:1]
+            if kind in ("oceanic plate", "subducting plate"):
+                w["features"][0]["composition models"] = [dict(TIAN)]
+            ws[which] = w
+            json.dump(w, open(os.path.join(wdir, "pair_%d_%s.wb" % (ci, which)), "w"))
+        qs = [(p, d) for (wh, p, d) in twin_queries(rng, kind, 6) if wh == "A"]
+        lines = ["world a %s -" % os.path.join(wdir, "pair_%d_a.wb" % ci), "world b %s -" % os.path.join(wdir, "pair_%d_b.wb" % ci)]
+        order = []
+        for (p, d) in qs:
+            pair = ["a", "b"] if rng.random() < 0.5 else ["b", "a"]
+            for wh in pair:
+                lines.append(q3(wh, p, d, list(props))); order.append((wh, p, d))
+        rc, out, err = proto.run_harness(lines)
+        if rc != 0 or len(out) != len(lines) or out[:2] != ["ok", "ok"]:
+            viol.append({"what": "library failed on a world pair (%s %s): rc=%s %s %s" % (kind, name, rc, out[:2], err[-200:]), "world_json": ws["a"]}); continue
+        for which in ("a", "b"):
+            idx = [i for i, o in enumerate(order) if o[0] == which]
+            rc2, out2, err2 = proto.run_harness(["world %s %s -" % (which, os.path.join(wdir, "pair_%d_%s.wb" % (ci, which)))] + [q3(which, order[i][1], order[i][2], list(props)) for i in idx])
+            if rc2 != 0 or len(out2) != 1 + len(idx):
+                viol.append({"what": "library failed on a single world of a pair (%s %s)" % (kind, name), "world_json": ws[which]}); continue
+            for k, i in enumerate(idx):
+                cases += 1
+                a, b = parse_answer(out[2 + i]), parse_answer(out2[1 + k])
+                if a[0] == "ok" and a[1][-1] != -1.0:
+                    nontriv += 1
+                if not (a[0] == b[0] and (a[0] != "ok" or a[1] == b[1])):
+                    viol.append({"what": "%s / temperature %s%s: world %s answers %s while the other world is alive and was queried at the same point, but %s alone in a fresh process"
+                                         % (kind, name, " + tian water content" if "composition models" in ws[which]["features"][0] else "", which, a[1][:3] if a[0] == "ok" else a, b[1][:3] if b[0] == "ok" else b),
+                                 "world_json": ws[which], "other_world_json": ws["b" if which == "a" else "a"], "cmd": q3(which, order[i][1], order[i][2], list(props)), "probe": None})
+                    break
+    return cases, nontriv
